@@ -227,11 +227,37 @@ func scenHandshake(e *Env, args []string, r *rand.Rand) {
 	e.serve()
 	c := p.bring(dir, "openSent", 90, remoteID)
 	if c != nil {
-		body := openVariant(variant, 0)
+		var body []byte
+		if !strings.HasPrefix(variant, "valid-burst") {
+			body = openVariant(variant, 0)
+		}
 		if sameAS && variant == "valid" { // identifier collision inside the same AS
 			id := e.localID.As4()
 			body = wire.OpenBody(4, remoteAS, 90, uint32(id[0])<<24|uint32(id[1])<<16|uint32(id[2])<<8|uint32(id[3]),
 				[]wire.Param{{Typ: 2, Caps: []wire.Cap{{Code: 65, Val: wire.BE32(remoteAS)}}}})
+		}
+		if variant == "valid-burst" || variant == "valid-burst-notif" {
+			// the OPEN with the next messages queued directly behind it, in one write
+			burst := wire.Open(remoteAS, 90, remoteID, wire.Cap{Code: 1, Val: []byte{0, 1, 0, 1}}, wire.Cap{Code: 70, Val: []byte{9, 8, 7, 6, 5, 4, 3, 2, 1}}, tag(c))
+			if variant == "valid-burst" {
+				burst = append(burst, wire.Keepalive()...)
+				for k := 0; k < 3; k++ {
+					b := make([]byte, 40+r.Intn(200))
+					r.Read(b)
+					burst = append(burst, wire.Update(b)...)
+				}
+			} else {
+				burst = append(burst, wire.Notification(6, 2, []byte("administratively shut down for maintenance, back soon"))...)
+			}
+			c.send(burst)
+			if variant == "valid-burst" {
+				p.waitEv(0, stepWait, "cb.exit", "OnEstablished")
+				time.Sleep(20 * time.Millisecond)
+			} else {
+				c.waitEnd(stepWait)
+			}
+			e.close()
+			return
 		}
 		c.send(wire.Header(1, body))
 		msgs := c.waitMsgs(2, stepWait)
@@ -380,6 +406,7 @@ func init() {
 			for _, v := range openVariants {
 				out = append(out, fmt.Sprintf("handshake:%s:%s", dir, v))
 			}
+			out = append(out, fmt.Sprintf("handshake:%s:valid-burst", dir), fmt.Sprintf("handshake:%s:valid-burst-notif", dir))
 			out = append(out, fmt.Sprintf("handshake:%s:valid:veto", dir), fmt.Sprintf("handshake:%s:valid:sameas", dir),
 				fmt.Sprintf("handshake:%s:valid-hold3:hold=3", dir), fmt.Sprintf("handshake:%s:valid:hold=0", dir))
 		}
@@ -400,6 +427,7 @@ func init() {
 			}
 			out = append(out, fmt.Sprintf("updates:%s:n=%d:veto=%d:k=%d", dir, cnt, veto, i))
 		}
+		out = append(out, "handshake:out:valid-burst", "handshake:in:valid-burst")
 		return out
 	}
 }
